@@ -245,6 +245,59 @@ def run(ctx, report):
     from .c15 import copy_visit_rule
     copy_visit_rule(ctx, R6, only='visit')
 
+    # ---------------------------------------------------------------- D7 one representation per constant
+    R7 = report.rule('C13.D7', 'a constant has one representation: the simplifier rebuilds a constant leaf of another integer type in the table\'s (unsigned) type, and every constant it builds '
+                     'takes its type from that table or from a constant operand', floor=10)
+    hlp7 = ctx.mod('expr_helper')
+    es = hlp7.func('_expr_simp')
+    param = es.args.args[0].arg
+    leaf = None
+    for n in ast.walk(es):
+        if isinstance(n, ast.If) and u(n.test).replace(' ', '') == 'isinstance(%s,ExprInt)' % param:
+            leaf = n
+            break
+    TABLE = 'tab_size_int'
+
+    def table_typed(call, fn):
+        """ExprInt(<T>(..)) where T is tab_size_int[..], or a local bound to tab_size_int.get(..) / tab_size_int[..]"""
+        if not (isinstance(call, ast.Call) and call.args and isinstance(call.args[0], ast.Call)):
+            return False
+        t = call.args[0].func
+        if isinstance(t, ast.Subscript) and u(t.value) == TABLE:
+            return True
+        if isinstance(t, ast.Name):
+            for a in ast.walk(fn):
+                if isinstance(a, ast.Assign) and len(a.targets) == 1 and u(a.targets[0]) == t.id and (u(a.value).startswith(TABLE + '.get(') or u(a.value).startswith(TABLE + '[')):
+                    return True
+        return False
+    if leaf is None:
+        R7.violation('_expr_simp: constant leaf', 'const-leaf:missing', '_expr_simp has no case for a constant leaf: ExprInt(int32(-1)) and ExprInt(uint32(0xFFFFFFFF)) stay two '
+                     'different simplified forms of one constant, and which one a fold produces depends on the nesting of the operands', where(hlp7, es),
+                     witness="expr_simp(a ^ -1 ^ c ^ c) is (a^0xFFFFFFFF), expr_simp(-1 ^ ((a ^ c) ^ c)) is (a^-0x1) for the constant ExprInt(int32(-1))")
+    else:
+        rets = [r for r in ast.walk(leaf) if isinstance(r, ast.Return) and any(r is x or any(r is y for y in ast.walk(x)) for x in leaf.body)]
+        rebuilt = [r for r in rets if isinstance(r.value, ast.Call) and u(r.value.func) == 'ExprInt' and table_typed(r.value, es) and ('%s.arg' % param) in u(r.value)]
+        if rebuilt:
+            R7.ok('_expr_simp: constant leaf', sample='a constant leaf is rebuilt as %s' % norm(rebuilt[0]))
+        else:
+            R7.violation('_expr_simp: constant leaf', 'const-leaf:not-rebuilt', 'the constant-leaf case of _expr_simp does not rebuild the constant in the type of %s' % TABLE, where(hlp7, leaf))
+    for fname, fn in sorted(hlp7.funcs.items()):
+        if fname not in ('_expr_simp', 'expr_simp', '_expr_simp_w') and not fname.startswith('merge'):
+            continue
+        for n in walk_no_nested(fn):
+            if not (isinstance(n, ast.Call) and u(n.func) == 'ExprInt' and n.args):
+                continue
+            inst = '%s: %s' % (fname, norm(n))
+            a0 = n.args[0]
+            from_const = any(isinstance(x, ast.Attribute) and x.attr == 'arg' for x in ast.walk(a0)) and not any(isinstance(x, ast.Call) and isinstance(x.func, ast.Name)
+                                                                                                                 and x.func.id.startswith(('int', 'uint')) for x in ast.walk(a0))
+            if table_typed(n, fn):
+                R7.ok(inst, sample='%s: type from %s' % (inst, TABLE), nontrivial=(len(R7.nontrivial) < 30))
+            elif from_const:
+                R7.ok(inst, sample='%s: type of a constant operand (normalised by the leaf case)' % inst)
+            else:
+                R7.violation(inst, 'const-type:%s:%s' % (fname, norm(n)), '%s builds a constant whose type comes neither from %s nor from a constant operand' % (fname, TABLE), where(hlp7, n))
+
 
 MUTANTS = [
     ('merge-slice-nocopy', 'miasmx/expression/expression_helper.py', '            out = v[0].copy(), v[1], v[2]\n', '            out = v[0], v[1], v[2]\n', 'C13.D4'),
@@ -265,4 +318,6 @@ MUTANTS = [
     ('getr-iter', 'miasmx/tools/emul_helper.py',
      '                if zf in x.get_w():\n                    zf_w = True\n',
      '                for w in x.get_w():\n                    if w == zf:\n                        zf_w = True\n', 'C13.D3'),
+    ('const-leaf-kept-signed', 'miasmx/expression/expression_helper.py', "        if t is not None and not isinstance(e.arg, t):\n            return ExprInt(t(e.arg))\n", "", 'C13.D7'),
+    ('fold-keeps-operand-type', 'miasmx/expression/expression_helper.py', "                o = ExprInt(tab_size_int[i1.get_size()](o))", "                o = ExprInt(int32(o))", 'C13.D7'),
 ]
